@@ -74,6 +74,21 @@ func c14OtherPEMs() []namedPEM {
 		namedPEM{"certificate twice", cat(certPEM, certPEM)},
 		namedPEM{"three blocks of other kinds, then key and certificate", cat(out[0].pem, out[2].pem, out[6].pem, keyPEM, certPEM)},
 	)
+	// parameter blocks as openssl writes them in front of a key (ecparam -genkey, dhparam), once, twice,
+	// three times, alone, and every other block label repeated in front of the key
+	ecp := pem.EncodeToMemory(&pem.Block{Type: "EC PARAMETERS", Bytes: []byte{0x06, 0x08, 0x2a, 0x86, 0x48, 0xce, 0x3d, 0x03, 0x01, 0x07}})
+	dhp := pem.EncodeToMemory(&pem.Block{Type: "DH PARAMETERS", Bytes: []byte{0x30, 0x06, 0x02, 0x01, 0x17, 0x02, 0x01, 0x02}})
+	out = append(out,
+		namedPEM{"EC PARAMETERS, then the key", cat(ecp, keyPEM)},
+		namedPEM{"EC PARAMETERS twice, then the key", cat(ecp, ecp, keyPEM)},
+		namedPEM{"DH PARAMETERS and EC PARAMETERS, then the key", cat(dhp, ecp, keyPEM)},
+		namedPEM{"three parameter blocks, no key", cat(ecp, dhp, ecp)},
+		namedPEM{"EC PARAMETERS alone", ecp},
+	)
+	for _, label := range []string{"X509 CRL", "CERTIFICATE REQUEST", "ENCRYPTED PRIVATE KEY", "PKCS7", "CMS", "TRUSTED CERTIFICATE", "PARAMETERS", "ANY PARAMETERS"} {
+		blk := pem.EncodeToMemory(&pem.Block{Type: label, Bytes: []byte{0x30, 0x03, 0x02, 0x01, 0x01}})
+		out = append(out, namedPEM{label + " twice, then key and certificate", cat(blk, blk, keyPEM, certPEM)})
+	}
 	out = append(out, namedPEM{"PEM with headers", pem.EncodeToMemory(&pem.Block{Type: "PRIVATE KEY", Headers: map[string]string{"Proc-Type": "4,ENCRYPTED", "DEK-Info": "AES-128-CBC,00"}, Bytes: b})})
 	return out
 }
